@@ -35,6 +35,7 @@ P7 (third round) with _create_branch set and a referenced branch, repo.fetch(sel
    controldir.create_branch(), whether the repository is created or reused.
 P8 a repository created while the tree is kept also receives the tree's pending merge parents; P9 the repository that takes over under
    --use-shared is checked to be shared before the own one is destroyed (both: known findings on this tree).
+P10 Reconfigure._check and cmd_remove_tree.run both ask the shelf manager and raise ShelvedChanges before a tree is destroyed.
 Does not decide: the other converters, nor that the copied data is equal (values); those stay not applicable.
 """
 DESTROY = {"destroy_branch", "destroy_repository", "destroy_workingtree"}
@@ -105,6 +106,12 @@ def run(ctx):
         ctx.check("P9-takeover-repository-is-shared", where, True, "the repository found upward is checked to be shared before the own repository is destroyed")
     else:
         ctx.violation("P9-takeover-repository-is-shared", where, "new_repo = up_controldir.find_repository(); new_repo.fetch(self.repository)", "with --use-shared apply() fetches into whatever repository find_repository() meets above the branch and then destroys the branch's own repository, without asking whether that repository is shared: for a standalone branch nested in another standalone branch the revisions go into the outer, non-shared repository, which the inner branch will not use — it is left with NoRepositoryPresent, tip and history unreachable")
+    # ---- P10: both ways of destroying a working tree refuse when it holds shelved changes (unless forced) ----------------
+    frt = repo.func("breezy/builtins.py", "cmd_remove_tree.run")
+    fck = repo.func(RC, "Reconfigure._check")
+    for where_, f_ in ((f"{RC}:Reconfigure._check", fck), ("breezy/builtins.py:cmd_remove_tree.run", frt)):
+        asks = any(call_attr(c) == "last_shelf" for c in calls_in(f_)) and any(isinstance(r_, ast.Raise) and "ShelvedChanges" in norm(r_) for r_ in ast.walk(f_))
+        ctx.check("P10-shelf-guard", where_, asks, "a working tree with shelved changes is not destroyed without force (ShelvedChanges)", message=f"{where_.split(':')[1]} destroys a working tree without asking its shelf manager: shelved changes live in the tree's control directory and are deleted with it — pending changes of the tree are lost by the reconfiguration")
     # ---- P3 -----------------------------------------------------------------------------------
     mt = [c for c in calls_in(fn) if call_attr(c) == "merge_to"]
     pairs = sorted((norm(c.func.value), norm(c.args[0])) for c in mt)
@@ -154,6 +161,7 @@ def run(ctx):
     k1_before(ctx, "P6-converter-marker-between", w6, g6, up6, rm6, "the format marker is switched before the old-format files are removed (an interrupted conversion leaves either a complete format-3 or a complete format-4 tree)")
 
 MUTANTS = [
+    Mutant("reconfigure destroys a tree with shelved changes (fix reverted)", RC, "            if self.tree.get_shelf_manager().last_shelf() is not None:\n                # As for remove-tree: the shelf lives in the working tree.\n                raise errors.ShelvedChanges(self.tree)\n", "", expect="P10-shelf-guard"),
     Mutant("referenced history fetched only into a new repository", RC, "        else:\n            repo = self.repository\n        if self._create_branch and self.referenced_branch is not None:\n", "        else:\n            repo = self.repository\n        if self._create_repository and self._create_branch and self.referenced_branch is not None:\n", expect="P7-new-branch-history-fetched"),
     Mutant("format marker switched after the old files are gone", "breezy/bzr/workingtree_4.py", "            self.update_format(tree)\n            self.remove_xml_files(tree)\n", "            self.remove_xml_files(tree)\n            self.update_format(tree)\n", expect="P6-converter-marker-between"),
     Mutant("only the tip's ancestry is fetched out", RC, "                reference_branch.repository.fetch(self.repository)\n", "                reference_branch.repository.fetch(self.repository, self.local_branch.last_revision() if self.local_branch is not None else None)\n", expect="P1-fetch-before-destroy-repository"),
